@@ -815,6 +815,31 @@ func verifDiffAny(a, b JsonNode, options []Option) Diff { return a.Diff(b, optio
 // shape, several members in any order).
 func verifKeyedDiff(a, b JsonNode, options []Option) Diff { return a.Diff(b, options...) }
 
+// verifDeterministic (C15): on freshly cloned documents the diff (strict and MERGE), its renderings and
+// the reading of a merge patch come out the same forty times in a row.
+func verifDeterministic(a, b JsonNode, options []Option) bool {
+	once := func() string {
+		x, y := verifCloneNode(a), verifCloneNode(b)
+		d := x.Diff(y, options...)
+		p, _ := d.RenderPatch()
+		m, _ := d.RenderMerge()
+		rm := ""
+		if !isVoid(y) {
+			if md, err := ReadMergeString(y.Json()); err == nil {
+				rm = md.Render()
+			}
+		}
+		return d.Render() + "|" + p + "|" + m + "|" + rm + "|" + x.Json() + y.Yaml()
+	}
+	first := once()
+	for i := 0; i < 40; i++ {
+		if once() != first {
+			return false
+		}
+	}
+	return true
+}
+
 // verifReadPatchKeys (C10): the same statement with a as the only target, over all the keys that need
 // (or seem to need) pointer escaping, non-ASCII keys included.
 func verifReadPatchKeys(a, b JsonNode) bool { return verifReadPatchFaithful(a, b, a) }
